@@ -308,6 +308,62 @@ fn odd_builder_models(ctx: &Ctx) {
     }
 }
 
+/// A VALID builder-made model whose basis function is a user-defined type with 11 arguments (the `BasisFunction` trait
+/// is public; closures stop at 10 arguments): build, queries, fit and statistics must return.
+struct Wide11 {
+    deriv: Option<usize>,
+}
+struct Wide11Args;
+impl varpro::prelude::BasisFunction<f64, Wide11Args> for Wide11 {
+    fn eval(&self, x: &DVector<f64>, a: &[f64]) -> DVector<f64> {
+        x.map(|v| {
+            let base = (-a[0] * v).exp();
+            let poly = 1.0 + (1..11).map(|k| a[k] * v.powi(k as i32) * 1e-3).sum::<f64>();
+            match self.deriv {
+                None => base * poly,
+                Some(0) => -v * base * poly,
+                Some(k) => base * v.powi(k as i32) * 1e-3,
+            }
+        })
+    }
+    const ARGUMENT_COUNT: usize = 11;
+}
+fn wide_basis_function_model(ctx: &Ctx) {
+    use varpro::prelude::*;
+    let case = json!({"odd_builder_model": "valid model with a user-defined 11-argument basis function"});
+    ctx.with(|s| s.inc("evaluations"));
+    let r = guarded(|| {
+        let names: Vec<String> = (0..11).map(|k| format!("w{}", k)).collect();
+        let mut b = SeparableModelBuilder::<f64>::new(&names).function(&names, Wide11 { deriv: None });
+        for k in 0..11 {
+            b = b.partial_deriv(names[k].clone(), Wide11 { deriv: Some(k) });
+        }
+        let x = DVector::from_fn(40, |i, _| 0.05 * i as f64);
+        let truth: Vec<f64> = (0..11).map(|k| if k == 0 { 0.8 } else { 0.5 / k as f64 }).collect();
+        let y = Wide11 { deriv: None }.eval(&x, &truth) * 2.5;
+        let start: Vec<f64> = truth.iter().map(|v| v * 1.05).collect();
+        let model = b.invariant_function(|x: &DVector<f64>| x.map(|_| 1.0)).independent_variable(x).initial_parameters(start).build();
+        let model = match model {
+            Ok(m) => m,
+            Err(e) => return format!("rejected: {:?}", e),
+        };
+        let p = varpro::solvers::levmar::LevMarProblemBuilder::new(model).observations(y).build();
+        match p {
+            Ok(p) => {
+                use levenberg_marquardt::LeastSquaresProblem;
+                let _ = (p.residuals(), p.jacobian());
+                let _ = varpro::solvers::levmar::LevMarSolver::default().fit_with_statistics(p);
+                "ran".to_string()
+            }
+            Err(e) => format!("problem rejected: {:?}", e),
+        }
+    });
+    match r {
+        Err(m) => ctx.with(|s| s.violate("C08", "panic:wide-basis-function", case, format!("panicked: {}", m))),
+        Ok(o) => ctx.with(|s| s.bucket("wide_basis_function_model", &o)),
+    }
+}
+
 fn bases(thorough: bool) -> Vec<Base> {
     let mut v = vec![];
     let fams = vec![Family::GenProd { m: 1, p: 1, inc: default_inc(1, 1) }, Family::Exp1Off, Family::Exp2Off, Family::OLeary, Family::ExpN(4)];
@@ -418,6 +474,11 @@ fn main() {
     engine_main("nonfinite", |ctx: Arc<Ctx>| {
         if let Some(r) = &ctx.args.replay {
             let v: Value = serde_json::from_str(r).unwrap();
+            if v.get("odd_builder_model").is_some() {
+                odd_builder_models(&ctx);
+                wide_basis_function_model(&ctx);
+                return;
+            }
             let (b, subs) = case_parse(&v);
             ctx.begin_desc(0, case_json(&b, &subs));
             dispatch(&ctx, &b, &subs);
@@ -430,6 +491,7 @@ fn main() {
         }
         if ctx.args.shard == 0 {
             odd_builder_models(&ctx);
+            wide_basis_function_model(&ctx);
         }
         let kmax: usize = ctx.args.extra.get("k").map(|s| s.parse().unwrap()).unwrap_or(if thorough { 2 } else { 1 });
         let mut idx: u64 = 0;
